@@ -488,6 +488,7 @@ func init() {
 			}
 			return key
 		}
+		var sample map[string]any
 		seen[eval(nil, nil)] = true
 		frontier := []node{{}}
 		depth := 0
@@ -507,6 +508,12 @@ func init() {
 						if k := eval(seq, seeds); !seen[k] {
 							seen[k] = true
 							next = append(next, node{seq, seeds})
+							var names []string
+							for _, o := range seq {
+								names = append(names, opNames[o])
+							}
+							sample = map[string]any{"part": "c16/reachable-states", "case": c16Case{Ops: seq, Seeds: seeds}, "operations": names,
+								"observation": "a new state at depth " + fmt.Sprint(len(seq)) + ": identity (deep hash of the package state | model state) = " + k}
 						}
 					}
 				}
@@ -575,8 +582,8 @@ func init() {
 		} else {
 			p.Bounds += fmt.Sprintf(" [fixpoint: %d states, no new state after depth %d: every longer sequence ends in a state already expanded]", len(seen), depth-1)
 		}
-		if len(p.Samples) == 0 {
-			p.Samples = append(p.Samples, map[string]any{"part": "c16/reachable-states", "new_states_per_depth": perDepth})
+		if len(p.Samples) == 0 && sample != nil {
+			p.Samples = append(p.Samples, sample)
 		}
 	}, replay: func(raw json.RawMessage) []Violation {
 		var c c16Case
